@@ -159,6 +159,44 @@ pub fn run(ctx: &mut Ctx) {
             }
         }
     }
+    if !for_c28 {
+        // directed: programs at the thresholds of the restriction flags, under flag words built from
+        // every single flag, MEMPOOL_MODE and supersets, all-ones and words with unknown bits
+        let mut f = Forest::new();
+        let b300 = f.atom(&vec![0x11; 300]);
+        let b1100 = f.atom(&vec![0x11; 1100]);
+        let b2100 = f.atom(&vec![0x11; 2100]);
+        let badg1 = f.atom(&vec![0x99; 48]);
+        let vars = [("b300", b300), ("b1100", b1100), ("b2100", b2100), ("badg1", badg1)];
+        let texts = [
+            "(* (q . $b300) (q . 2))", "(* (q . 2) (q . $b300))", "(/ (q . $b300) (q . 3))", "(/ (q . $b2100) (q . 3))", "(divmod (q . 3) (q . $b1100))",
+            "(% (q . $b2100) (q . 3))", "(modpow (q . $b300) (q . 3) (q . 7))", "(modpow (q . 3) (q . 3) (q . 7))", "(g1_multiply (pubkey_for_exp (q . 1)) (q . $b1100))",
+            "(g1_negate (q . $badg1))", "(+ (q . 0x0001) (q . 0x00ff))", "(softfork (q . 0x00a0) (q . 0) (q . (q . 1)) (q . ()))", "(softfork (q . 160) (q . 5) (q . (q . 1)) (q . ()))",
+            "(0x0f (q . 1))", "(coinid (sha256 (q . 1)) (sha256 (q . 2)) (q . 1000))", "(sha256tree (q . (1 2 3)))", "(keccak256 (q . 1))", "(secp256k1_verify (q . 1) (q . 2) (q . 3))",
+            "(concat (q . $b2100) (q . $b2100))", "(strlen (concat (q . $b1100) (q . $b1100)))",
+        ];
+        let mut words: Vec<u32> = vec![0, u32::MAX, clvmr::chia_dialect::MEMPOOL_MODE.bits(), clvmr::chia_dialect::MEMPOOL_MODE.bits() | 0x2000, clvmr::chia_dialect::MEMPOOL_MODE.bits() | 0x0040,
+            clvmr::chia_dialect::MEMPOOL_MODE.bits() | 0x1000 | 0x0020, 0xffff_0000, 0x8000_0217, ClvmFlags::all().bits()];
+        for (fl, _) in crate::outcome::ALL_FLAGS {
+            words.push(fl.bits());
+            words.push(clvmr::chia_dialect::MEMPOOL_MODE.bits() | fl.bits());
+        }
+        let env = f.nil();
+        let eb = f.classic_bytes(env);
+        for t in texts {
+            let cid = DIRECTED | id;
+            id += 1;
+            if !ctx.want(cid) {
+                continue;
+            }
+            let p = crate::sexp::parse(&mut f, t, &vars);
+            let pb = f.classic_bytes(p);
+            for w in &words {
+                log_run(ctx, &pb, &eb, crate::outcome::UNLIMITED, *w, cid);
+            }
+            ctx.count("directed_flag_word_programs");
+        }
+    }
     let _ = id;
     let n = ctx.n(60_000, 3_000_000);
     random_cases!(ctx, n, |r, i| {
